@@ -4,6 +4,7 @@
   captures, chain starts/ends, callbacks inside chains, forks/joins of branch threads.
 -/
 import JoinModel.Props.Common
+import JoinModel.AsyncTry
 namespace JoinModel.Props.C06
 open JoinModel JoinModel.Props
 
@@ -43,5 +44,39 @@ theorem failing_run_trace (σ : World) (parent : Option String) (p : Input) (kin
     specHandle (cfgFor σ parent p kind) (p.handler.map Prod.fst) f) h
   rw [t1, r1, t2, r2, handler_not_called_on_failure]
   simp [M.ret]
+
+/-! ### the async try macros (canonical schedule) -/
+
+/-- the step loop of an async try invocation -/
+def loopOfAT (σ : World) (parent : Option String) (p : Input) (kind : Kind) : M Fin :=
+  specLoopAT (cfgFor σ parent p kind) ((cfgFor σ parent p kind).maxDepth - 1) 0
+    (List.replicate (cfgFor σ parent p kind).n none)
+
+/-- `try_join_async!` & co.: the generated code is the async-try reference (events and result) -/
+theorem async_try_generated (σ : World) (parent : Option String) (p : Input) (kind : Kind) (code : Code)
+    (hs : SupportedAT p kind) (hgen : gen p kind = .ok code) :
+    evalCode σ parent code = specRunAT σ parent p kind := async_try_refines σ parent p kind code hs hgen
+
+/-- **C05/C06 for the async try macros**: when the loop fails with `v`, `v` is not a success, it is — unchanged — what a
+    chain returned, and the end of that chain is the *last* event of the loop: nothing of a later step is evaluated and
+    no chain behind it in its own step runs (`try_join!` returns at once); by `handler_not_called_on_failure` no handler
+    is called either. -/
+theorem async_try_stops_at_failure (σ : World) (parent : Option String) (p : Input) (kind : Kind) (v : Value)
+    (h : (loopOfAT σ parent p kind).res = .ok (.failed v)) :
+    v.isSucc = false ∧ ∃ pre b j, (loopOfAT σ parent p kind).trace = pre ++ [.ev (.chainEnd b j v)] := by
+  obtain ⟨h1, pre, b, j, h2, _⟩ := specLoopAT_failed _ _ _ _ v h
+  exact ⟨h1, pre, b, j, h2⟩
+
+/-- on success the loop returns one payload per branch -/
+theorem async_try_success_arity (σ : World) (parent : Option String) (p : Input) (kind : Kind) (code : Code)
+    (hs : SupportedAT p kind) (ps : List Value) (h : (loopOfAT σ parent p kind).res = .ok (.vals ps)) :
+    ps.length = p.branches.length := by
+  have hact : ∀ k, ((cfgFor σ parent p kind).active k).Nodup ∧
+      ∀ b ∈ (cfgFor σ parent p kind).active k, b < (cfgFor σ parent p kind).n := by
+    intro k
+    refine ⟨List.Nodup.sublist List.filter_sublist List.nodup_range, fun b hb => ?_⟩
+    exact List.mem_range.mp (List.mem_filter.mp hb).1
+  have := specLoopAT_post (cfgFor σ parent p kind) hs.isTry _ _ _ (.vals ps) (allSucc_init' _) hact (by simp) h
+  simpa [cfgFor, SpecCfg.n] using this
 
 end JoinModel.Props.C06
